@@ -696,7 +696,9 @@ func (g *functionGenerator) genCall(call *ssa.CallCommon) (insts []wat.Inst, ret
 		}
 		callee := call.StaticCallee()
 		if callee.Parent() != nil {
-			g.module.AddFunc(newFunctionGenerator(g.prog, g.module, g.tLib).genFunction(callee))
+			if fn_name, _ := wir.GetFnMangleName(callee, g.prog.Manifest.MainPkg); g.module.FindFunc(fn_name) == nil {
+				g.module.AddFunc(newFunctionGenerator(g.prog, g.module, g.tLib).genFunction(callee))
+			}
 		}
 
 		if len(callee.LinkName()) > 0 {
@@ -1469,7 +1471,9 @@ func (g *functionGenerator) genMakeDefer(inst *ssa.Defer) (insts []wat.Inst) {
 	case *ssa.Function:
 		callee := inst.Call.StaticCallee()
 		if callee.Parent() != nil {
-			g.module.AddFunc(newFunctionGenerator(g.prog, g.module, g.tLib).genFunction(callee))
+			if fn_name, _ := wir.GetFnMangleName(callee, g.prog.Manifest.MainPkg); g.module.FindFunc(fn_name) == nil {
+				g.module.AddFunc(newFunctionGenerator(g.prog, g.module, g.tLib).genFunction(callee))
+			}
 		}
 
 		for i, v := range inst.Call.Args {
